@@ -10,6 +10,11 @@ theorem dynamic_imports_load_rp2_plugins_only : Gen.dynamicImports =
     [("rp2/rp2_main.py", "_ACCOUNTING_METHOD_PACKAGE"), ("rp2/rp2_main.py", "package_path"), ("rp2/rp2_main.py", "plugin_name"),
      ("rp2/rp2_main.py", "f'{_ACCOUNTING_METHOD_PACKAGE}.{accounting_method_name}'")] := dynamic_imports_confined
 theorem own_opens_are_read_only : (Gen.opens.all fun o => o.2 == "r") = true := opens_read_only
+theorem file_mutating_calls_are_log_output_and_reports : Gen.fileMutations =
+    [("rp2/logger.py", "Path('./log').mkdir"), ("rp2/plugin/report/abstract_ods_generator.py", "output_file_path.unlink"),
+     ("rp2/plugin/report/ie/tax_report_ie.py", "output_file.save"), ("rp2/plugin/report/jp/tax_report_jp.py", "output_file.save"),
+     ("rp2/plugin/report/open_positions.py", "output_file.save"), ("rp2/plugin/report/rp2_full_report.py", "output_file.save"),
+     ("rp2/plugin/report/us/tax_report_us.py", "output_file.save"), ("rp2/rp2_main.py", "output_dir_path.mkdir")] := file_mutations_confined'
 /-- the files the run writes are the reports `<prefix><method>_<generator>.ods` of the output directory, nothing else -/
 theorem written_files_are_reports (o : Cli.Options) (acctName holderOf : Nat → String) (cfgAssets : List String) (sheets : List Cli.AssetIn) :
     ∀ f ∈ (Cli.run o acctName holderOf cfgAssets sheets).files, ∃ m base, f.1 = Cli.fileName o.pfx m base := Cli.run_files o acctName holderOf cfgAssets sheets
